@@ -25,8 +25,12 @@ ASSUMPTIONS = ["task cancellation and 'no callback raises' are asyncio runtime f
 def scripts(env):
     cfg = msglayer.default_cfg()
     out = [c["script"] for _, c in load_corpus("C18") if "script" in c]
-    for _ in range(env.scale(280, 6000)):
+    for i in range(env.scale(280, 6000)):
         s = G.c18_random(env.rng, cfg)
+        s["second_context"] = "busy" if i % 3 == 0 else True
+        out.append(s)
+    for _ in range(env.scale(60, 900)):
+        s = G.c18_twice(env.rng, cfg)
         s["second_context"] = True
         out.append(s)
     out += [G.c18_handler(env.rng) for _ in range(env.scale(40, 600))]
